@@ -280,3 +280,40 @@ func ZZ_C09_stream_pag_buffer_runs_over_pages() {
 
 // C10 (round 3): statistics after a REFUSED merge are those before it
 func ZZ_C10_refused_merge_leaves_statistics() { ZZ_C13_merge_mismatch_exact() }
+
+// C07 (round 3): EMPTY bin blocks are well-formed: N = 0 in any of the three layouts (the contiguous layout
+// still carries its first index and stride), anywhere in the stream, into every store kind
+func ZZ_C07_empty_blocks() {
+	zzvBound("empty blocks", "reference-encoded stream: zero-count block, mapping block, then positive/negative bin blocks with N=0 in the three layouts (contiguous: symbolic first index in [-8000,8000] and stride from {-1,0,40}) around one non-empty positive block; decoded into sparse, dense, paginated and collapsing stores")
+	zzvExactFloatsOnly()
+	start := zzvIntIn("start", 200, 8000)
+	if zzvChoose("negativeStart", 2) == 1 {
+		start = -start
+	}
+	stride := zzStrides[zzvChoose("stride", len(zzStrides))]
+	emptyContig := func(flagType byte) []byte {
+		out := zzPutUvarint([]byte{flagType | 3<<2}, 0)
+		return zzPutVarint(zzPutVarint(out, int64(start)), stride)
+	}
+	emptyDeltas := func(flagType byte, layout byte) []byte { return zzPutUvarint([]byte{flagType | layout<<2}, 0) }
+	zero := 1.5
+	stream := zzPutVarfloat([]byte{1 << 2}, zero)
+	stream = zzPutFloat64LE(zzPutFloat64LE(append(stream, 2), 1.02020202020202), 0)
+	blocks := [][]byte{emptyContig(1), emptyDeltas(1, 1), emptyDeltas(3, 2), emptyContig(3)}
+	order := [][]int{{0, 1, 2, 3}, {3, 2, 1, 0}, {1, 0, 3, 2}}[zzvChoose("order", 3)]
+	stream = append(stream, blocks[order[0]]...)
+	stream = append(stream, blocks[order[1]]...)
+	// one real bin so that the content is not empty: index 12, weight 2 (layout: index deltas and counts)
+	stream = zzPutVarfloat(zzPutVarint(zzPutUvarint(append(stream, 1|1<<2), 1), 12), 2)
+	stream = append(stream, blocks[order[2]]...)
+	stream = append(stream, blocks[order[3]]...)
+	zzvCover("stream")
+	dst, err := DecodeDDSketch(stream, zzProvider(zzvChoose("dstKind", 4)), nil)
+	zzvAssert("well-formed-stream-with-empty-blocks-accepted", err == nil)
+	zzvAssert("content", dst.zeroCount == zero && dst.positiveValueStore.TotalCount() == 2 && store.ZZAbs(dst.positiveValueStore, 12) == 2 && dst.negativeValueStore.IsEmpty())
+	ref, ok := zzRefDecode(stream)
+	zzvAssert("reference-decoder-agrees", ok && zzRefTotal(ref.pos) == 2 && zzRefTotal(ref.neg) == 0)
+}
+
+// C12 (round 3): the exact-summary variant's reported extremes are those of what was absorbed with positive weight
+func ZZ_C12_exact_extremes_ignore_zero_weight_adds() { zzC10Add(true) }
